@@ -118,8 +118,8 @@ fn run_in(case: &C16Case, nu: &mut Nu) -> Result<CaseInfo, Fail> {
     let mut insts: Vec<Inst> = Vec::new();
     // (ctx, name) -> index of the active instance
     let mut active: BTreeMap<(u8, u8), usize> = BTreeMap::new();
-    // probe id -> (ctx, expected answering instance indices)
-    let mut probes: Vec<(WFrame, u8, Vec<usize>)> = Vec::new();
+    // probe id -> (ctx, instances that must answer, instances that may answer)
+    let mut probes: Vec<(WFrame, u8, Vec<usize>, Vec<usize>)> = Vec::new();
     let mut replaced_or_error_then_probe = false;
     let mut had_stop = false;
     // (context, name) pairs whose failing trigger is in the stream: a handler resuming from
@@ -127,7 +127,7 @@ fn run_in(case: &C16Case, nu: &mut Nu) -> Result<CaseInfo, Fail> {
     let mut boomed: std::collections::BTreeSet<(u8, u8)> = Default::default();
     let t20 = Duration::from_secs(8);
 
-    let mut do_probe = |nu: &mut Nu, ctx: u8, insts: &Vec<Inst>, active: &BTreeMap<(u8, u8), usize>, probes: &mut Vec<(WFrame, u8, Vec<usize>)>| -> Check {
+    let mut do_probe = |nu: &mut Nu, ctx: u8, insts: &Vec<Inst>, active: &BTreeMap<(u8, u8), usize>, probes: &mut Vec<(WFrame, u8, Vec<usize>, Vec<usize>)>| -> Check {
         let p = nu.append("probe", ctxs[ctx as usize], None, None)?;
         let want: Vec<usize> = active.iter().filter(|((c, _), _)| *c == ctx).map(|(_, i)| *i).collect();
         let want_ids: Vec<String> = want.iter().map(|i| insts[*i].reg.id.clone()).collect();
@@ -147,7 +147,7 @@ fn run_in(case: &C16Case, nu: &mut Nu) -> Result<CaseInfo, Fail> {
                 p.id
             )));
         }
-        probes.push((p, ctx, want));
+        probes.push((p, ctx, want, vec![]));
         Ok(())
     };
 
@@ -160,6 +160,13 @@ fn run_in(case: &C16Case, nu: &mut Nu) -> Result<CaseInfo, Fail> {
                 let resume_head = &(*resume_head && !boomed.contains(&(*ctx, *name)));
                 let reg = nu.append(&format!("{n}.register"), ctxs[*ctx as usize], Some(script(n, version, kind, *resume_head).as_bytes()), None)?;
                 let prev = active.remove(&(*ctx, *name));
+                if prev.is_some() {
+                    // right behind the replacing frame, before the old instance has reached it: the
+                    // old instance must not answer; the new one may (it subscribes at some point)
+                    let p = nu.append("probe", ctxs[*ctx as usize], None, None)?;
+                    let must: Vec<usize> = active.iter().filter(|((c, _), _)| c == ctx).map(|(_, i)| *i).collect();
+                    probes.push((p, *ctx, must, vec![insts.len()]));
+                }
                 // the previous instance is replaced whatever the new script is worth
                 if let Some(pi) = prev {
                     let pid = insts[pi].reg.id.clone();
@@ -200,7 +207,14 @@ fn run_in(case: &C16Case, nu: &mut Nu) -> Result<CaseInfo, Fail> {
             Ev::Unreg { name, ctx } => {
                 let n = NAMES[*name as usize];
                 nu.append(&format!("{n}.unregister"), ctxs[*ctx as usize], None, None)?;
-                if let Some(i) = active.remove(&(*ctx, *name)) {
+                let stopping = active.remove(&(*ctx, *name));
+                if stopping.is_some() {
+                    // queued right behind the stop: a stopped instance processes nothing further
+                    let p = nu.append("probe", ctxs[*ctx as usize], None, None)?;
+                    let must: Vec<usize> = active.iter().filter(|((c, _), _)| c == ctx).map(|(_, i)| *i).collect();
+                    probes.push((p, *ctx, must, vec![]));
+                }
+                if let Some(i) = stopping {
                     let id = insts[i].reg.id.clone();
                     let (_, ok) = nu.wait(t20, |fr| {
                         fr.iter().any(|w| w.topic == format!("{n}.unregistered") && meta_of(w, "handler_id").as_deref() == Some(&id))
@@ -216,7 +230,13 @@ fn run_in(case: &C16Case, nu: &mut Nu) -> Result<CaseInfo, Fail> {
                 let n = NAMES[*name as usize];
                 nu.append(&format!("boom.{n}"), ctxs[*ctx as usize], None, None)?;
                 boomed.insert((*ctx, *name));
-                if let Some(i) = active.remove(&(*ctx, *name)) {
+                let stopping = active.remove(&(*ctx, *name));
+                if stopping.is_some() {
+                    let p = nu.append("probe", ctxs[*ctx as usize], None, None)?;
+                    let must: Vec<usize> = active.iter().filter(|((c, _), _)| c == ctx).map(|(_, i)| *i).collect();
+                    probes.push((p, *ctx, must, vec![]));
+                }
+                if let Some(i) = stopping {
                     let id = insts[i].reg.id.clone();
                     let (_, ok) = nu.wait(t20, |fr| {
                         fr.iter().any(|w| w.topic == format!("{n}.unregistered") && meta_of(w, "handler_id").as_deref() == Some(&id))
@@ -281,7 +301,7 @@ fn run_in(case: &C16Case, nu: &mut Nu) -> Result<CaseInfo, Fail> {
         }
     }
     // ---- per probe -----------------------------------------------------------------------
-    for (p, ctx, want) in &probes {
+    for (p, ctx, want, may) in &probes {
         let answers: Vec<&WFrame> = frames.iter().filter(|w| meta_of(w, "frame_id").as_deref() == Some(&p.id) && w.topic.ends_with(".out")).collect();
         let mut got: Vec<String> = answers.iter().filter_map(|w| meta_of(w, "handler_id")).collect();
         got.sort();
@@ -294,6 +314,9 @@ fn run_in(case: &C16Case, nu: &mut Nu) -> Result<CaseInfo, Fail> {
             }
         }
         exp.sort();
+        // instances that may or may not have been subscribed yet when the probe was appended
+        let may_ids: Vec<String> = may.iter().filter_map(|i| insts.get(*i)).map(|i| i.reg.id.clone()).collect();
+        got.retain(|g| exp.contains(g) || !may_ids.contains(g));
         if got != exp {
             return Err(life(format!(
                 "probe {} in context {ctx} was answered by instances {got:?}; the active instances of that context were {exp:?}",
